@@ -117,6 +117,13 @@ class AuthenticationError(USMError):
     """
 
 
+class UnknownEngineId(USMError):
+    """
+    This error is raised when the remote device reports that it does not
+    know the engine-id we addressed it with (stale or corrupt discovery data).
+    """
+
+
 class UnknownUser(USMError):
     """
     This error is raised when a message is processed that is not consistent
@@ -662,9 +669,14 @@ def validate_usm_message(message: PlainMessage) -> None:
         ObjectIdentifier("1.3.6.1.6.3.15.1.1.5.0"): "Wrong message digest",
         ObjectIdentifier("1.3.6.1.6.3.15.1.1.6.0"): "Unable to decrypt",
     }
+    unknown_engine_id = ObjectIdentifier("1.3.6.1.6.3.15.1.1.4.0")
     for varbind in pdu.varbinds:
         if varbind.oid in errors:
             msg = errors[varbind.oid]
+            if varbind.oid == unknown_engine_id:
+                raise UnknownEngineId(
+                    f"Error response from remote device: {msg}"
+                )
             raise SnmpError(f"Error response from remote device: {msg}")
     if isinstance(message.scoped_pdu.data, Report):
         # Reports are the only messages which may legitimately arrive with a
